@@ -98,7 +98,7 @@ func TestC01Conservation(t *testing.T) {
 			for i, tx := range cands {
 				if inc[string(tx.GetHash())] {
 					kinds[strings.SplitN(specs[i].Kind, "+", 2)[0]] = true
-					bdesc = append(bdesc, specs[i].Kind)
+					bdesc = append(bdesc, specs[i].Kind+specs[i].Desc)
 				} else {
 					bdesc = append(bdesc, "("+specs[i].Kind+" skipped)")
 					classes["skipped-tx"] = true
